@@ -362,6 +362,73 @@ func runC06(p *core.Prog, r *core.Report) {
 		r.Pass("C06.R6", "hash-path/errors", fmt.Sprintf("%d error-returning repository calls on the hash path inspected", n))
 	})
 	r.Guard("C06.R1", "closure/AncestorsOf", "ancestor closure", func() { checkClosureFn(p, r, "C06.R1", "ModuleGraph.AncestorsOf", 1, false) })
+	r.Guard("C06.R1", "unconditional", "hashed fields are hashed for every module", func() {
+		// the scalar fields of the identity are written as they are on EVERY path: no path substitutes a constant or another
+		// value for one kind of module (all leaves of the phi graph of the written value are loads of that field)
+		fn := p.Func(pkgMani, "ModuleHashes.hashModule")
+		allLeavesAre := func(v ssa.Value, field string) (bool, string) {
+			seen := map[ssa.Value]bool{}
+			ok, why := true, ""
+			var walk func(v ssa.Value)
+			walk = func(v ssa.Value) {
+				v = core.SkipConv(core.ResolveCell(v))
+				if seen[v] {
+					return
+				}
+				seen[v] = true
+				if ph, isPhi := v.(*ssa.Phi); isPhi {
+					for _, e := range ph.Edges {
+						walk(e)
+					}
+					return
+				}
+				if f, _ := core.LoadedField(v); f != nil && f.Name() == field {
+					return
+				}
+				ok, why = false, v.String()
+			}
+			walk(v)
+			return ok, why
+		}
+		type sink struct {
+			field string
+			arg   ssa.Value
+		}
+		var sinks []sink
+		core.Instrs(fn, func(in ssa.Instruction) {
+			c, ok := in.(*ssa.Call)
+			if !ok {
+				return
+			}
+			cl := core.CommonCallee(c.Common())
+			if cl == nil {
+				return
+			}
+			switch {
+			case cl.Name() == "PutUint64" && len(c.Call.Args) >= 2:
+				sinks = append(sinks, sink{"InitialBlock", c.Call.Args[len(c.Call.Args)-1]})
+			case cl.Name() == "WriteString" || cl.Name() == "Write":
+				arg := c.Call.Args[len(c.Call.Args)-1]
+				for _, f := range []string{"BinaryEntrypoint", "Type", "Content"} {
+					if hasFieldNamed(core.Trace(arg, 0), f) && !hasFieldNamed(core.Trace(arg, 0), "InitialBlock") {
+						// only sinks whose value is that field (possibly through phis), not composite ones
+						if _, isCall := core.SkipConv(core.ResolveCell(arg)).(*ssa.Call); !isCall {
+							sinks = append(sinks, sink{f, arg})
+						}
+					}
+				}
+			}
+		})
+		seenF := map[string]bool{}
+		for _, sk := range sinks {
+			ok, why := allLeavesAre(sk.arg, sk.field)
+			seenF[sk.field] = true
+			r.Check(ok, "C06.R1", "hashModule/unconditional/"+sk.field, "the field "+sk.field+" is hashed as it is for every module: no path writes a constant or another value in its place", "on some path the value written instead of the field is "+why, p.Pos(fn.Pos()))
+		}
+		if !seenF["InitialBlock"] || !seenF["BinaryEntrypoint"] {
+			core.Undecide("hashModule: the writes of InitialBlock / BinaryEntrypoint were not found")
+		}
+	})
 	r.Guard("C06.R1", "input-order", "the order of the inputs is part of the identity", func() {
 		// "ordered inputs": for each input, in slice order, the hash receives something that tells WHICH module a map or
 		// store input refers to (its identifier), not only its kind; otherwise two inputs of the same kind can be swapped
